@@ -46,6 +46,26 @@ def textual_fix():
     if r.returncode or r.stdout.strip():
         return False, r.stdout.decode()[-300:]
     return True, f"{n} call(s) inserted"
+def textual_fix3():
+    """the fix of ab34014 re-done on a reshaped tree: nil guard at the top of the stream constructor"""
+    n = 0
+    guard = ["\tif ctx == nil {", "\t\t// the method has no context parameter: the subscription lives as long as the connection", "\t\tctx = context.Background()", "\t}"]
+    for path in glob.glob(W + "/*.go"):
+        if path.endswith("_test.go"): continue
+        lines = open(path).read().split("\n")
+        out = []
+        for l in lines:
+            out.append(l)
+            if re.match(r"^func .*\(ctx context\.Context, \w+ reflect\.Type.*\{$", l):
+                out += guard
+                n += 1
+        open(path, "w").write("\n".join(out))
+    r = subprocess.run("gofmt -w *.go ; go build ./... && go vet .", shell=True, cwd=W, env=ENV, stdout=subprocess.PIPE, stderr=subprocess.STDOUT)
+    if r.returncode or r.stdout.strip():
+        return False, r.stdout.decode()[-300:]
+    if n != 1:
+        return False, f"{n} stream constructors found"
+    return True, "nil guard inserted"
 def textual_fix2():
     """the fix of cdb4c59 re-done on a reshaped tree: plain hand-over sends become selects with the exit signal"""
     n = 0
@@ -95,7 +115,7 @@ try:
         r = sh(f"git -c user.name=x -c user.email=x@x cherry-pick {old}..{new}")
         if r.returncode:
             sh("git cherry-pick --abort")
-            ok, why = textual_fix() if new.startswith("39ec50c") else textual_fix2()
+            ok, why = textual_fix() if new.startswith("39ec50c") else (textual_fix2() if new.startswith("cdb4c59") else textual_fix3())
             if not ok:
                 print(f"{f}: CONFLICT, textual fix failed: {why}"); continue
             sh("git add -A && git -c user.name=x -c user.email=x@x commit -q -m fixup")
